@@ -624,6 +624,25 @@ pub fn run(ctx: &Ctx) -> Report {
     cases.push(Box::new(loop_with_pair_cases().into_iter()));
     cases.push(Box::new(recursion_from_finally().into_iter()));
     cases.push(Box::new(crate::c06::cases_for_c08().into_iter()));
+    // displacement (metamorph.rs): the same programs as the body of a function 58-62 activations deep, so that
+    // their own calls (1-3 levels, and the library's) run into the limit of active calls at every possible
+    // point - in try bodies, catch blocks, finally blocks - and that error is handled like any other
+    {
+        let mut sel: Vec<Case> = Vec::new();
+        sel.extend(d1.clone().into_iter().map(|n| mk("nest_depth1", vec![n])));
+        sel.extend(d2.clone().into_iter().step_by(if thorough { 1 } else { 7 }).map(|n| mk("nest_depth2", vec![n])));
+        sel.extend(reentered_after_abrupt_finally_exit());
+        sel.extend(recursion_from_finally());
+        sel.extend(loop_with_pair_cases().into_iter().step_by(if thorough { 1 } else { 7 }));
+        sel.extend(crate::c06::cases_for_c08());
+        cases.push(Box::new(crate::metamorph::displaced_cases("under_the_limit_of_active_calls", &sel, &[0], &[58, 59, 60, 61, 62]).into_iter()));
+    }
+    // transparent try statements (metamorph.rs) around every statement of the standard corpus
+    {
+        use crate::metamorph::TryWrap;
+        let corpus = crate::metamorph::standard_corpus(if thorough { 1 } else { 4 });
+        cases.push(Box::new(crate::metamorph::try_wrapped_cases("every_statement_in_a_transparent_try_statement", &corpus, &[TryWrap::Finally, TryWrap::Rethrow, TryWrap::Both]).into_iter()));
+    }
     if !thorough {
         cases.push(Box::new(loop_try_try_nests().into_iter().map(move |n| mk("nest_depth3_loop_try_try", vec![n]))));
     }
@@ -649,7 +668,7 @@ pub fn run(ctx: &Ctx) -> Report {
     mcheck::fill_report(
         &mut report,
         &stats,
-        "every nest of the constructs {block, try/catch, try/finally, try/catch/finally (focus in body, catch or finally), while x1/x2, for, function/method/closure call} x 2 fillers up to the depth bound, with every leaf action {fall through, throw of 4 value kinds, 6 failing built-ins (one per error class), callee throwing at depth 1-3, return, break, continue}, and every sequential pair of nests (quick tier: depth 2, pairs of depth-1 nests, and the depth-3 nests that put a loop around two try-like constructs), plus 2 940 programs whose loop body holds a try-like construct around an inner loop followed by a second try-like construct with a leaving leaf, plus C06's programs in which closures capture variables of a try statement that an exception, a return or a handled exception leaves (the handling function's variables stay intact when those closures are called later), plus 30 programs in which a try statement inside a loop is entered again after its finally block was left by continue / break with an outcome waiting, run on the real interpreter and compared with M-eval's block trace and outcome. non-trivial = an exception reaches a handler, a finally block or the top level.",
+        "every nest of the constructs {block, try/catch, try/finally, try/catch/finally (focus in body, catch or finally), while x1/x2, for, function/method/closure call} x 2 fillers up to the depth bound, with every leaf action {fall through, throw of 4 value kinds, 6 failing built-ins (one per error class), callee throwing at depth 1-3, return, break, continue}, and every sequential pair of nests (quick tier: depth 2, pairs of depth-1 nests, and the depth-3 nests that put a loop around two try-like constructs), plus 2 940 programs whose loop body holds a try-like construct around an inner loop followed by a second try-like construct with a leaving leaf, plus C06's programs in which closures capture variables of a try statement that an exception, a return or a handled exception leaves (the handling function's variables stay intact when those closures are called later), plus the depth-1 nests, every seventh depth-2 nest (all in the thorough tier) and the families below as the body of a function that is already 58-62 activations deep (their own calls run into the limit of active calls at every possible point, and that error is raised, handled and cleaned up after like any other), plus the standard corpus of the other properties' programs (closures, classes, iteration, control flow, the nests above) with every statement that declares nothing wrapped in `try { S } finally { }`, in `try { S } catch e { throw e; }` and in both (transparent wrappers: every exit of every statement passes through handlers and finally blocks that must not change it), plus 30 programs in which a try statement inside a loop is entered again after its finally block was left by continue / break with an outcome waiting, run on the real interpreter and compared with M-eval's block trace and outcome. non-trivial = an exception reaches a handler, a finally block or the top level.",
         json!({"nest_depth": if thorough { 3 } else { 2 }, "pairs": if thorough { "depth1 x depth2" } else { "depth1 x depth1" }, "constructs": CONS.len(), "leaves": LEAVES.len()}),
     );
     // trigger-free population reported separately
